@@ -11,5 +11,5 @@ export GOFLAGS=-mod=mod GOPROXY=off GOSUMDB=off GOTOOLCHAIN=local
 gofmt -l trie array encode index | head -3
 go build ./... 
 if [ -n "${RUNTESTS:-}" ]; then go test -vet=off -count=1 -run "$RUNTESTS" ./... 2>&1 | tail -5; fi
-git diff > /verif/mutants/$name.patch
+git add -N . >/dev/null 2>&1; git diff > /verif/mutants/$name.patch
 echo "wrote $name ($(wc -l < /verif/mutants/$name.patch) lines)"
